@@ -98,8 +98,8 @@ def _(E, m, a, c0): return a[0]
 @pattern(r'(?:std::string::)?String::from_utf8')
 def _(E, m, a, c0):
     v = a[0]; bs = _ascii(E, v)
-    if all(b < 128 for b in bs): return ok(v)
-    return err(Adt('FromUtf8Error', None, [v]))
+    try: bytes(bs).decode('utf-8'); return ok(v)          # concrete bytes: real UTF-8 validation
+    except (UnicodeDecodeError, ValueError): return err(Adt('FromUtf8Error', None, [v]))
 @pattern(r'(?:std::string::)?FromUtf8Error::(into_bytes|as_bytes)')
 def _(E, m, a, c0):
     e = E.deref(a[0]); return e.fields[0] if m.group(1) == 'into_bytes' else Ref(Cell(e.fields[0]))
